@@ -95,26 +95,27 @@ theorem build_order_valid (regs : List (Key × Nat × List Key)) (eorder norder 
         unfold addProviderDeferred; rfl
     have h0 := this regs {} rfl
     have fr : (detectCyclesWith (addAll {} regs) eorder norder).1.sortedDirty = (addAll {} regs).sortedDirty := by
-      unfold detectCyclesWith
       have f := (updateDegreesWith_frame (addAll {} regs) eorder).2.2.2.2.2.1
-      simp only []
-      split
-      · split <;> exact f
-      · have : ∀ l g, (detectLoop g l).1.sortedDirty = g.sortedDirty := by
-          intro l
-          induction l with
-          | nil => intro g; rfl
-          | cons k rest ih =>
-            intro g
-            unfold detectLoop
-            have hk : (detectCyclesFrom g k).1.sortedDirty = g.sortedDirty := by
-              unfold detectCyclesFrom; split; rfl; split <;> rfl
-            split
-            next g1' heq =>
-              have : g1' = (detectCyclesFrom g k).1 := by rw [heq]
-              subst this; rw [ih]; exact hk
-            next => exact hk
-        simp only [this]; exact f
+      have hloop : ∀ l g, (detectLoop g l).1.sortedDirty = g.sortedDirty := by
+        intro l
+        induction l with
+        | nil => intro g; rfl
+        | cons k rest ih =>
+          intro g
+          unfold detectLoop
+          have hk : (detectCyclesFrom g k).1.sortedDirty = g.sortedDirty := by
+            unfold detectCyclesFrom; split; rfl; split <;> rfl
+          split
+          next g1' heq =>
+            have : g1' = (detectCyclesFrom g k).1 := by rw [heq]
+            subst this; rw [ih]; exact hk
+          next => exact hk
+      cases hd : (updateDegreesWith (addAll {} regs) eorder).cycleDirty with
+      | false => rw [detectCyclesWith_clean _ eorder norder hd]; exact f
+      | true =>
+        rw [detectCyclesWith_dirty _ eorder norder hd]
+        simp only [setCycleClean_sortedDirty, hloop, resetCycleCache_sortedDirty]
+        exact f
     rw [h1] at fr; simp only [] at fr; rw [fr]; exact h0
   have hv := topo_valid g1 b1 s1 norder' hn' hd g2 l h2
   unfold ValidOrder at hv
